@@ -27,6 +27,10 @@ pub enum Status {
   Running,
   /// waiting for a grant; `blocked` = the last try_lock failed
   Waiting { blocked: bool },
+  /// inside `block_on` (wait_for_end) with its waker registered: runs again only after a wake-up
+  Parked,
+  /// parked and woken meanwhile: on its way to its next stop
+  Waking,
   Finished,
 }
 
@@ -108,8 +112,33 @@ impl Hooks for ConcHooks {
     }
     true
   }
-  fn yield_point(&self, _site: &'static str) {
-    wait_turn(false, None)
+  fn yield_point(&self, site: &'static str) {
+    let t = TID.with(|t| t.get());
+    match site {
+      // not scheduling points, they tell the controller what the thread does outside the stops:
+      // about to return Pending to block_on (which parks the thread) ...
+      "status_park" => {
+        if t != 0 {
+          if let Some(ctl) = CTL.with(|c| c.borrow().clone()) {
+            let mut g = lock_state(&ctl);
+            g.status[t - 1] = Status::Parked;
+            ctl.cv.notify_all();
+          }
+        }
+      }
+      // ... a wake-up was issued: a parked waiter is on its way again
+      "status_wake" => {
+        if let Some(ctl) = CTL.with(|c| c.borrow().clone()) {
+          let mut g = lock_state(&ctl);
+          for st in g.status.iter_mut() {
+            if *st == Status::Parked {
+              *st = Status::Waking;
+            }
+          }
+        }
+      }
+      _ => wait_turn(false, None),
+    }
   }
 }
 
@@ -398,8 +427,20 @@ pub fn run_once(case: &CaseSpec, prefix: &[usize]) -> RunResult {
   // a blocked thread is worth another try only after somebody else has run
   let mut retry = vec![true; nt];
   let (mut stuck, mut hang) = (false, false);
-  let mut idle_waits = 0;
   loop {
+    // a thread that runs outside the stops (just granted, or woken from its park) reaches its next stop, parks or finishes
+    {
+      let mut g = lock_state(&ctl);
+      let t0 = std::time::Instant::now();
+      while g.status.iter().any(|s| *s == Status::Running || *s == Status::Waking) && t0.elapsed() < StdDuration::from_secs(10) {
+        let (g2, _) = ctl.cv.wait_timeout(g, StdDuration::from_millis(200)).unwrap();
+        g = g2;
+      }
+      if g.status.iter().any(|s| *s == Status::Running || *s == Status::Waking) {
+        hang = true; // a call that neither returns nor reaches a stop
+        break;
+      }
+    }
     let enabled: Vec<usize> = {
       let g = lock_state(&ctl);
       (1..=nt)
@@ -414,23 +455,15 @@ pub fn run_once(case: &CaseSpec, prefix: &[usize]) -> RunResult {
       break;
     }
     if enabled.is_empty() {
-      // nobody waits for a grant. A thread that is parked outside the hook points (block_on in
-      // wait_for_end) may just have been woken: give it a moment to reach its next stop.
-      let parked = lock_state(&ctl).status.iter().any(|s| *s == Status::Running);
-      if parked && idle_waits < 10 {
-        idle_waits += 1;
-        let g = lock_state(&ctl);
-        let _ = ctl.cv.wait_timeout(g, StdDuration::from_millis(100)).unwrap();
-        continue;
-      }
+      // nobody waits for a grant
+      let parked = lock_state(&ctl).status.iter().any(|s| *s == Status::Parked);
       if parked {
-        hang = true; // parked for good: a lost wake-up
+        hang = true; // parked with nobody left to wake it: a lost wake-up
       } else {
         stuck = true; // every unfinished thread waits for a lock: deadlock
       }
       break;
     }
-    idle_waits = 0;
     let i = decisions.len();
     let choice = if i < prefix.len() && enabled.contains(&prefix[i]) {
       prefix[i]
@@ -446,11 +479,10 @@ pub fn run_once(case: &CaseSpec, prefix: &[usize]) -> RunResult {
     g.turn = Some(choice);
     ctl.cv.notify_all();
     let t0 = std::time::Instant::now();
-    while g.status[choice - 1] == Status::Running && t0.elapsed() < StdDuration::from_millis(300) {
-      let (g2, _) = ctl.cv.wait_timeout(g, StdDuration::from_millis(100)).unwrap();
+    while (g.status[choice - 1] == Status::Running || g.status.iter().any(|s| *s == Status::Waking)) && t0.elapsed() < StdDuration::from_secs(10) {
+      let (g2, _) = ctl.cv.wait_timeout(g, StdDuration::from_millis(200)).unwrap();
       g = g2;
     }
-    // still running after 300 ms: parked outside the hook points; the others go on
     let now_blocked = matches!(g.status[choice - 1], Status::Waiting { blocked: true });
     drop(g);
     // a failed try_lock changes nothing for the others; real progress may have released what they wait for
